@@ -56,18 +56,31 @@ theorem rangeWords_nil (a b : Int) (h : b < a) : rangeWords a b = [] := by
   have : (b - a + 1).toNat = 0 := by omega
   simp [this]
 
-/-- a range iterator over defined bounds, ending below INT64_MAX and not crossing the sentinel -/
-theorem yields_range (a b : Int) (hb : b < INT64_MAX) (hlo : INT64_MIN ≤ a)
+theorem yields_range_undef (a b : Int) (h : isU a = true ∨ isU b = true) : Yields (.range a b) [] := by
+  apply Yields.done
+  rcases h with h | h <;> simp [iterAdvance, h]
+
+/-- a range iterator over defined 64-bit bounds that does not cross the sentinel -/
+theorem yields_range (a b : Int) (hb : b ≤ INT64_MAX) (hlo : INT64_MIN ≤ a)
     (hs : ∀ i, a ≤ i → i ≤ b → i ≠ UNDEF) (hbu : b ≠ UNDEF) :
     Yields (.range a b) (rangeWords a b) := by
   by_cases hab : a ≤ b
   · rw [rangeWords_cons a b hab]
     have ha : isU a = false := isUndef_of_ne (hs a (by omega) hab)
     have hbb : isU b = false := isUndef_of_ne hbu
-    have hadd : C.add a 1 = a + 1 := by
-      unfold C.add C.wrap; unfold INT64_MAX at hb; unfold INT64_MIN at hlo; omega
-    refine Yields.more _ (.range (a + 1) b) _ _ ?_ (yields_range (a + 1) b hb (by omega) (fun i h1 h2 => hs i (by omega) h2) hbu)
-    simp [iterAdvance, ha, hbb, hab, hadd]
+    by_cases hmax : a = INT64_MAX
+    · -- the last representable value: the iterator is marked exhausted instead of wrapping around
+      have hnil : rangeWords (a + 1) b = [] := rangeWords_nil _ _ (by omega)
+      rw [hnil]
+      refine Yields.more _ (.range UNDEF b) _ _ ?_ (yields_range_undef _ _ (Or.inl (by decide)))
+      have h1 : isU INT64_MAX = false := by decide
+      have h2 : INT64_MAX ≤ b := by omega
+      simp [iterAdvance, hbb, hmax, h1, h2]
+    · have hadd : C.add a 1 = a + 1 := by
+        unfold C.add C.wrap; unfold INT64_MAX at hb hmax; unfold INT64_MIN at hlo; omega
+      have hne : (a == INT64_MAX) = false := by simp [hmax]
+      refine Yields.more _ (.range (a + 1) b) _ _ ?_ (yields_range (a + 1) b hb (by omega) (fun i h1 h2 => hs i (by omega) h2) hbu)
+      simp [iterAdvance, ha, hbb, hab, hadd, hne]
   · rw [rangeWords_nil a b (by omega)]
     apply Yields.done
     simp only [iterAdvance]
@@ -75,10 +88,6 @@ theorem yields_range (a b : Int) (hb : b < INT64_MAX) (hlo : INT64_MIN ≤ a)
     simp [this]
 termination_by (b - a + 1).toNat
 decreasing_by omega
-
-theorem yields_range_undef (a b : Int) (h : isU a = true ∨ isU b = true) : Yields (.range a b) [] := by
-  apply Yields.done
-  rcases h with h | h <;> simp [iterAdvance, h]
 
 /-! ### single instructions on explicit states -/
 
@@ -114,7 +123,7 @@ theorem step_jtrueP (env : Env) (d : Int) (v : Int) (pc : Nat) (st mem : List In
 
 theorem step_iterCondition (env : Env) (q t r : Int) (pc : Nat) (st mem : List Int) (its : List Iter) :
     step env .iterCondition ⟨pc, q :: t :: r :: st, mem, its⟩ =
-      some ⟨pc + 1, r :: b2i (contWord q t r) :: st, mem, its⟩ := rfl
+      some ⟨pc + 1, normW r :: b2i (contWord q t (normW r)) :: st, mem, its⟩ := rfl
 
 theorem step_iterEnd (env : Env) (q t n : Int) (pc : Nat) (st mem : List Int) (its : List Iter) :
     step env .iterEnd ⟨pc, q :: t :: n :: st, mem, its⟩ = some ⟨pc + 1, endWord q t n :: st, mem, its⟩ := rfl
@@ -163,8 +172,8 @@ theorem loop_exec (env : Env) (code : List Instr) (c : Ctx) (l : LEnv) (body : L
     (hf : f = 4 * c.vars.length) (hf20 : f + 3 < 20)
     (hcode : CodeAt code L (roundCode body f)) (qw : Int) (k : Nat) (items : List (Int × Int))
     (hbody : ∀ p ∈ items, ∀ st mem its, MemInv c l mem → mem.length = 20 → getM mem (f + 3) = p.1 →
-      ∃ mem' ext, Steps env code ⟨L + 3, st, mem, its⟩ ⟨L + 3 + body.length, p.2 :: st, mem', its ++ ext⟩ ∧
-        Agree (f + 4) mem' mem) :
+      ∃ w mem' ext, Steps env code ⟨L + 3, st, mem, its⟩ ⟨L + 3 + body.length, w :: st, mem', its ++ ext⟩ ∧
+        Agree (f + 4) mem' mem ∧ normW w = p.2) :
     ∀ (rest : List (Int × Int)), (∀ p ∈ rest, p ∈ items) →
     ∀ (st mem : List Int) (its : List Iter) (it : Iter) (t n : Int),
       MemInv c l mem → mem.length = 20 → its[k]? = some it → Yields it (rest.map (·.1)) →
@@ -207,7 +216,7 @@ theorem loop_exec (env : Env) (code : List Instr) (c : Ctx) (l : LEnv) (body : L
     -- the body
     have hlen1 : (setM mem (f + 3) p.1).length = 20 := by rw [length_setM]; exact hlen
     have hP1 : MemInv c l (setM mem (f + 3) p.1) := hP.stable (by rw [← hf]; exact agree_setM f mem (f + 3) p.1 (by omega))
-    obtain ⟨m2, ext, sb, ab⟩ := hbody p (hsub p (by simp)) (encIt k :: st) (setM mem (f + 3) p.1) (its.set k it') hP1 hlen1
+    obtain ⟨w, m2, ext, sb, ab, hnw⟩ := hbody p (hsub p (by simp)) (encIt k :: st) (setM mem (f + 3) p.1) (its.set k it') hP1 hlen1
       (getM_setM_same _ _ _ (by omega))
     have hlen2 : m2.length = 20 := ab.2.trans hlen1
     have g0 : getM m2 f = t := by rw [ab.1 f (by omega), getM_setM_ne _ _ _ _ (by omega)]; exact ht
@@ -216,16 +225,17 @@ theorem loop_exec (env : Env) (code : List Instr) (c : Ctx) (l : LEnv) (body : L
     -- INCR_M f+1, PUSH_M f, PUSH_M f+2, ITER_CONDITION, ADD_M f, JTRUE_P
     let its2 := its.set k it' ++ ext
     let m3 := setM m2 (f + 1) (C.add n 1)
-    have s4 := Steps.one (s := ⟨L + 3 + body.length, p.2 :: encIt k :: st, m2, its2⟩) c3 (step_incrM env (f + 1) _ _ m2 its2)
+    have s4 := Steps.one (s := ⟨L + 3 + body.length, w :: encIt k :: st, m2, its2⟩) c3 (step_incrM env (f + 1) _ _ m2 its2)
     rw [g1] at s4
-    have s5 := Steps.one (s := ⟨L + 3 + body.length + 1, p.2 :: encIt k :: st, m3, its2⟩) c4 (step_pushM env f _ _ m3 its2)
-    have s6 := Steps.one (s := ⟨L + 3 + body.length + 1 + 1, getM m3 f :: p.2 :: encIt k :: st, m3, its2⟩) c5 (step_pushM env (f + 2) _ _ m3 its2)
+    have s5 := Steps.one (s := ⟨L + 3 + body.length + 1, w :: encIt k :: st, m3, its2⟩) c4 (step_pushM env f _ _ m3 its2)
+    have s6 := Steps.one (s := ⟨L + 3 + body.length + 1 + 1, getM m3 f :: w :: encIt k :: st, m3, its2⟩) c5 (step_pushM env (f + 2) _ _ m3 its2)
     have h3f : getM m3 f = t := by simp only [m3]; rw [getM_setM_ne _ _ _ _ (by omega)]; exact g0
     have h3q : getM m3 (f + 2) = qw := by simp only [m3]; rw [getM_setM_ne _ _ _ _ (by omega)]; exact g2
     have h3n : getM m3 (f + 1) = C.add n 1 := by simp only [m3]; exact getM_setM_same _ _ _ (by omega)
     rw [h3f, h3q] at s6
     rw [h3f] at s5
-    have s7 := Steps.one (s := ⟨L + 3 + body.length + 1 + 1 + 1, qw :: t :: p.2 :: encIt k :: st, m3, its2⟩) c6 (step_iterCondition env qw t p.2 _ _ m3 its2)
+    have s7 := Steps.one (s := ⟨L + 3 + body.length + 1 + 1 + 1, qw :: t :: w :: encIt k :: st, m3, its2⟩) c6 (step_iterCondition env qw t w _ _ m3 its2)
+    rw [hnw] at s7
     have s8 := Steps.one (s := ⟨L + 3 + body.length + 1 + 1 + 1 + 1, p.2 :: b2i (contWord qw t p.2) :: encIt k :: st, m3, its2⟩) c7 (step_addM env f p.2 _ _ m3 its2)
     rw [h3f] at s8
     let t' := if isU p.2 then t else C.add t p.2
@@ -306,8 +316,8 @@ theorem runs_loop (env : Env) (code : List Instr) (c : Ctx) (l : LEnv) (q init b
         Steps env code ⟨pc, st, mem, its⟩ ⟨pc + init.length, encIt its.length :: st, mem, its ++ [it]⟩)
     (hbody : ∀ p ∈ items, ∀ pcb st mem its, CodeAt code pcb body → MemInv c l mem → mem.length = 20 →
       getM mem (f + 3) = p.1 →
-      ∃ mem' ext, Steps env code ⟨pcb, st, mem, its⟩ ⟨pcb + body.length, p.2 :: st, mem', its ++ ext⟩ ∧
-        Agree (f + 4) mem' mem) :
+      ∃ w mem' ext, Steps env code ⟨pcb, st, mem, its⟩ ⟨pcb + body.length, w :: st, mem', its ++ ext⟩ ∧
+        Agree (f + 4) mem' mem ∧ normW w = p.2) :
     Runs env code (loopCode q init body f) c l false
       [endWord qw (loopGo qw (items.map (·.2)) 0 0).1 (loopGo qw (items.map (·.2)) 0 0).2] := by
   intro pc st mem its hc hP hlen
